@@ -226,6 +226,10 @@ def deserialise_set(flow_num_str: str) -> set:
     return set(json.loads(flow_num_str))
 
 
+# names which "eval" can resolve even with empty builtins and no variables
+_IMPLICIT_NAMES = frozenset({'__builtins__', '__debug__'})
+
+
 def restricted_evaluator(
     *whitelist: type,
     error_class: Callable = ValueError,
@@ -318,6 +322,14 @@ def restricted_evaluator(
         >>> evaluator('a + b', a=1, b=2)
         3
 
+        Nor can it see the names Python itself provides:
+        >>> evaluator('__builtins__')
+        Traceback (most recent call last):
+        NameError: name '__builtins__' is not defined
+        >>> evaluator('__debug__')
+        Traceback (most recent call last):
+        NameError: name '__debug__' is not defined
+
     """
     # the node visitor is called for each node in the AST,
     # this is the bit which rejects types which are not whitelisted
@@ -354,6 +366,17 @@ def restricted_evaluator(
                     'error_type': error_node.__class__.__name__,
                 },
             ) from None
+
+        # Python resolves these names without consulting the variables we
+        # provide (the builtins mapping itself and a compile-time constant)
+        # => treat them like any other undefined name
+        for node in ast.walk(expr_node):
+            if (
+                isinstance(node, ast.Name)
+                and node.id in _IMPLICIT_NAMES
+                and node.id not in variables
+            ):
+                raise NameError(f"name '{node.id}' is not defined")
 
         # run the expresion
         # Note: this may raise runtime errors
